@@ -36,11 +36,11 @@ type Validator struct {
 
 // validationContext holds current validation context.
 type validationContext struct {
-	function       *Function
-	functionName   string
-	loopDepth      int
-	switchDepth    int // switch nesting since the innermost loop body / continuing block began
-	inContinuing   bool
+	function     *Function
+	functionName string
+	loopDepth    int
+	switchDepth  int // switch nesting since the innermost loop body / continuing block began
+	inContinuing bool
 	// loopExitBarred is true while break / continue would leave a continuing
 	// block; it is cleared inside the body of a loop nested in that block.
 	loopExitBarred bool
